@@ -12,7 +12,9 @@ RULE = ("A case is (32-byte key, real handshake, then one of: [lengths] a reques
         "single-bit flip of an encrypted response in transit, judged at protocol level (read()) and, for the V2-in-V3 "
         "traffic LAN.send produces, at LAN level; [counter] a session of >=4200 packets on one connection). Part "
         "'lengths' enumerates n=m=0..300; 'tamper_proto' enumerates every bit of responses of 17 lengths covering all "
-        "16 residues; 'tamper_lan' every bit of a LAN-level response. Distinct = distinct (key, lengths, flip); "
+        "16 residues; 'tamper_lan' every bit of a LAN-level response; 'tamper_decoder_level_all_bits' hands every "
+        "single-bit alteration of a response, at its original length, to _process_packet (the entry point the repo's "
+        "tests pin). Distinct = distinct (key, lengths, flip); "
         "non-trivial = an encrypted packet crossed the wire in each direction.")
 ASSUMPTIONS = [
     "white-box touch point: _LanProtocolV3 write/read/authenticate are driven directly for arbitrary payload lengths "
@@ -219,6 +221,48 @@ def run(plan):
         if w.net.protocol_exceptions and res.ok:
             res.fail("exception escaped data_received: " + w.net.protocol_exceptions[0][1], repr(w.net.protocol_exceptions[0]))
 
+    async def do_tamper_decoder(w):
+        """The decoder entry point the repo's own tests pin (_process_packet), handed each altered packet at its
+        original length - the way a packet taken from the receive queue reaches it."""
+        from simkit.seams import HarnessError
+        proto = await proto_session(w)
+        if proto is None:
+            return
+        if not hasattr(proto, "_process_packet"):
+            raise HarnessError("_LanProtocolV3._process_packet is gone")
+        m = plan["m"]
+        reply_state["payload"] = det_bytes(f"rsp{plan['seed']}:{m}", m)
+        reply_state["padseed"] = m
+        proto.write(b"q")
+        try:
+            got = await proto.read()
+        except Exception as e:
+            res.fail(f"genuine response raised {type(e).__name__}", repr(e))
+            return
+        if got != reply_state["payload"]:
+            res.fail("response payload not decoded identically", f"m={m}")
+            return
+        orig = reply_state["orig"]
+        PE = w.ns.lan.ProtocolError
+        for bit in range(len(orig) * 8):
+            alt = bytearray(orig)
+            alt[bit // 8] ^= 1 << (bit % 8)
+            if (alt[5] & 0xF) == codec.T_HANDSHAKE_RESPONSE:
+                res.exempt += 1
+                continue
+            w.fire("bit_flip_at_decoder")
+            try:
+                with memoryview(bytes(alt)) as mv:
+                    out = proto._process_packet(mv)
+            except PE:
+                continue
+            except Exception as e:
+                res.fail(f"tampered response raised {type(e).__name__} instead of ProtocolError",
+                         f"decoder level: m={m} bit={bit} (byte {bit // 8}) {e!r}")
+                return
+            res.fail("tampered response accepted", f"decoder level: m={m} bit={bit} (byte {bit // 8}) returned {len(out)} bytes")
+            return
+
     async def do_tamper_lan(w):
         ac = s.make_clients()[0]
         dev.raw_payload_handler = None
@@ -246,7 +290,7 @@ def run(plan):
                      f"bit={plan['bit']} {o.exc!r}")
 
     main = {"lengths": do_lengths, "burst": do_burst, "counter": do_counter, "tamper_proto": do_tamper_proto,
-            "tamper_lan": do_tamper_lan}[mode]
+            "tamper_lan": do_tamper_lan, "tamper_decoder": do_tamper_decoder}[mode]
     try:
         w.run(main)
     except (SimDeadlock, SimStepLimit) as e:
@@ -292,6 +336,12 @@ def space(tier):
     def tamper_lan(j, rng):
         return {"mode": "tamper_lan", "config": {"version": 3}, "m": lan_m, "bit": j, "seed": 5}
     sp.add("tamper_lan", nbits, tamper_lan, exhaustive=True)
+
+    def tamper_dec(j, rng):
+        m = (TAMPER_LENS + [34, 120, 300])[j % (len(TAMPER_LENS) + 3)]
+        return {"mode": "tamper_decoder", "config": {"version": 3, "key": rand_bytes(rng, 32).hex(),
+                                                     "token": rand_bytes(rng, 64).hex()}, "m": m, "seed": 900 + j}
+    sp.add("tamper_decoder_level_all_bits", (len(TAMPER_LENS) + 3) * (2 if tier == "quick" else 40), tamper_dec, exhaustive=True)
 
     def burst(j, rng):
         n = rng.randint(2, 6)
